@@ -20,7 +20,8 @@ VARIABLE hist
 SetToSeq(S) == LET RECURSIVE F(_) F(T) == IF T = {} THEN <<>> ELSE LET x == CHOOSE x \in T : TRUE IN <<x>> \o F(T \ {x})
                IN F(S)
 \* aggregates as JSON-friendly records: bag as a sequence of counts (Vals = 1..n), ids as a sequence
-J(a) == [key |-> a.key, sum |-> a.sum, bag |-> [i \in 1..Cardinality(Vals) |-> a.bag[i]], last |-> a.last,
+J(a) == [key |-> a.key, sum |-> a.sum, bag |-> [i \in 1..Cardinality(Vals) |-> a.bag[i]],
+         hbag |-> [i \in 1..Cardinality(Vals) |-> a.hbag[i]], last |-> a.last,
          ids |-> SetToSeq(a.ids)]
 JBatch(f) == SetToSeq({J(a) : a \in out'[f][Len(out'[f])]})
 
@@ -51,6 +52,6 @@ Bound == Len(hist) <= Depth
 \* what a flush right after the history must emit (the driver always ends with one)
 JHeld(f) == SetToSeq({J([key |-> kv] @@ acc[f][kv]) : kv \in DOMAIN acc[f]})
 Emit == (Len(hist) = Depth) =>
-          PrintT(<<"REPLAY", ToJson([steps |-> hist,
+          PrintT(<<"REPLAY", ToJson([steps |-> hist, nvals |-> Cardinality(Vals),
                                      final |-> [fine |-> JHeld("fine"), coarse |-> JHeld("coarse"), all |-> JHeld("all")]])>>)
 =============================================================================
